@@ -310,6 +310,11 @@ func c11Expired(a *ChildArgs, sql string) {
 			_ = cancel
 			return c, context.DeadlineExceeded
 		},
+		func() (context.Context, error) {
+			c, cancel := context.WithCancelCause(context.Background())
+			cancel(errors.New("request aborted by the client"))
+			return c, context.Canceled
+		},
 	} {
 		ctx, want := mk()
 		for _, ep := range ctxEPs() {
@@ -419,8 +424,17 @@ func c11HookCancel(a *ChildArgs, sql string) {
 	hookCancelAt, hookCancelAtDispatch = -1, -1
 	_, _ = gosqlx.ParseWithContext(context.Background(), sql)
 	nAdv, nDisp := int(c11Advances), int(c11Dispatches)
+	tries := 0
 	try := func(atAdv, atDisp int) {
-		ctx, cancel := context.WithCancel(context.Background())
+		// every second context carries a cancel cause of its own: the error must still match context.Canceled
+		var ctx context.Context
+		var cancel context.CancelFunc
+		if tries++; tries%2 == 0 {
+			c, cc := context.WithCancelCause(context.Background())
+			ctx, cancel = c, func() { cc(errors.New("request aborted by the client")) }
+		} else {
+			ctx, cancel = context.WithCancel(context.Background())
+		}
 		defer cancel()
 		c11Advances, c11Dispatches = 0, 0
 		hookFired, c11AdvSinceCancel, c11DispSinceCancel = false, 0, 0
